@@ -64,6 +64,7 @@ func genC02I(c *Ctx) *Plan {
 			p.YieldOff = append(p.YieldOff, s)
 		}
 	}
+	p.Cfg.AliveDel = r.chance(0.5) // an accepting AliveDelegate: a preemption point if it is ever called without the node lock
 	return p
 }
 
